@@ -338,6 +338,35 @@ def r2_lists_after_prune(ctx, rep):
                f"registration at line(s) {lines} follows the prune loop (line {prune_line})" if ok else
                f"self.{lst} is filled before prune(): entities that display/proc_internals hide still get pages and list entries",
                py.nloc(c))
+    # the prune pass reaches every kind of program unit that has a prune(): the guard of the loop (whatever it tests - "not a
+    # name left unresolved", a class, the presence of the method) holds for each class a source file can contain
+    units = sorted({c.cls for arm in ctx.cascade.arms for c in arm.constructs
+                    if c.dest and set(c.dest.split("|")) & py.hasattr_set("FortranSourceFile") and c.cls in py.classes
+                    and py.resolve_method(c.cls, "prune") is not None})
+    if len(units) < 4:
+        raise AnalysisError(f"program unit classes with a prune() not found ({units})")
+    for e in astq.trace(fn):
+        if not (e.kind == "call" and call_name(e.node).endswith(".prune") and e.loops):
+            continue
+        var = call_name(e.node).rsplit(".", 1)[0]
+        for cls in units:
+            def atom(x, cls=cls):
+                if isinstance(x, ast.Call) and call_name(x) == "isinstance" and len(x.args) == 2 and ast.unparse(x.args[0]) == var:
+                    ks = x.args[1].elts if isinstance(x.args[1], ast.Tuple) else [x.args[1]]
+                    names = [ast.unparse(k) for k in ks]
+                    if all(k in py.classes or k in ("str", "int", "type(None)", "bytes") for k in names):
+                        return ("isa", any(k in py.classes and py.is_subclass(cls, k) for k in names))
+                if isinstance(x, ast.Call) and call_name(x) == "hasattr" and len(x.args) == 2 and ast.unparse(x.args[0]) == var and \
+                        isinstance(x.args[1], ast.Constant):
+                    return ("has", x.args[1].value in py.all_attrs(cls) if hasattr(py, "all_attrs") else True)
+                return None
+            # atoms come back with the truth value they have for this class: the path must be open under "all true"
+            fires = astq.event_fires(e, atom, {"isa": True, "has": True})
+            ok = fires is not False
+            rep.ob(f"Project.correlate: the prune pass reaches {cls}", ok,
+                   "the guard of the prune loop holds for this class" if ok else
+                   f"`{var}.prune()` runs under {e.cond_texts()}, which is false for a {cls}: its members that `display` / "
+                   f"`hide_undoc` exclude keep their documentation on its page and in the search index", py.nloc(e.node))
     # correlate before prune
     corr = [n.lineno for n in ast.walk(fn) if isinstance(n, ast.For)
             and any(call_name(c).endswith(".correlate") for c in py.walk_calls(n))]
@@ -429,10 +458,63 @@ def r3_links_to_visible(ctx, rep):
                 continue
             # an item documented on its parent's page (common block, variable): the page is the parent's
             ok = f"{target}.visible" in rawconds or f"{target}.parent.visible" in rawconds
+            # ... and where the item's own flag is set to True at construction and never decided by a display filter (common
+            # blocks), a test of that flag says nothing: the parent's flag is the one that counts
+            ms = re.search(r"([\w.\[\]*]+)\.get_url\(\)", o.sym)
+            coll = re.findall(r"\.(\w+)\[(?:\*|-?\d+)\]", ms.group(1) if ms else target)
+            elem = _element_classes(ctx)
+            kind = elem.get(coll[-1]) if coll else None
+            on_parent_page = {elem[c] for c in c09.ANCHORED_LISTS if c in elem}
+            if ok and kind in _always_visible_classes(ctx) and kind in on_parent_page and f"{target}.parent.visible" not in rawconds:
+                rep.ob(construct, False,
+                       f"the link is guarded by `{target}.visible`, but a {kind} is created with visible = True and no display filter "
+                       f"ever changes that: the page linked is its parent's, and `{target}.parent.visible` is not consulted - a common "
+                       f"block of a procedure that `display` hides is linked to a page that is never written", o.loc)
+                continue
             rep.ob(construct, ok,
                    (f"link guarded by {target}.visible" if ok else
                     f"href to {target}.get_url() is not guarded by {target}.visible: may point at the page of an "
                     f"entity that display/proc_internals removed"), o.loc)
+
+
+def _element_classes(ctx) -> Dict[str, str]:
+    """collection attribute -> class of its elements: from the dispatch arms (`self.common.append(FortranCommon(...))`) and from
+    annotated attribute declarations (`self.other_uses: List[FortranCommon] = []`)"""
+    py = ctx.py
+    memo = py.__dict__.setdefault("_c05_elem_classes", {})
+    if memo:
+        return memo
+    for arm in ctx.cascade.arms:
+        for c in arm.constructs:
+            for d in (c.dest or "").split("|"):
+                if d and c.cls in py.classes:
+                    memo.setdefault(d, c.cls)
+    for _m, fn in py.all_functions():
+        for n in ast.walk(fn):
+            if isinstance(n, ast.AnnAssign) and isinstance(n.target, ast.Attribute) and ast.unparse(n.target.value) == "self":
+                m = re.fullmatch(r"(?:typing\.)?(?:List|list|Set|set)\[['\"]?(\w+)['\"]?\]", ast.unparse(n.annotation))
+                if m and m.group(1) in py.classes:
+                    memo[n.target.attr] = m.group(1)
+    return memo
+
+
+def _always_visible_classes(ctx) -> Set[str]:
+    """entity classes whose `visible` is the constant True from construction on: set in the class's own initialiser, and the class
+    is not one whose instances are run through a display filter that assigns the flag (those are the members of pruned lists,
+    which get `visible` from the filter's verdict)"""
+    py = ctx.py
+    out = set()
+    for cname, ci in py.classes.items():
+        if ci.module != "sourceform":
+            continue
+        for meth in ("_initialize", "__init__"):
+            fn = ci.methods.get(meth)
+            if fn is None:
+                continue
+            vals = [v for _t, v in astq.assignments(fn, "self.visible") if v is not None]
+            if vals and all(isinstance(v, ast.Constant) and v.value is True for v in vals):
+                out.add(cname)
+    return out
 
 
 def r4_display_logic(ctx, rep):
